@@ -97,6 +97,19 @@ def canon(u):
     return out
 
 
+def decode_conn(c):
+    """connectivity as written in the op: a number, or a Fraction / Decimal spelled out"""
+    if isinstance(c, dict):
+        if "frac" in c:
+            import fractions
+
+            return fractions.Fraction(*c["frac"])
+        import decimal
+
+        return decimal.Decimal(c["dec"])
+    return c
+
+
 def call(op):
     kw = {}
     if "count" in op:
@@ -104,9 +117,19 @@ def call(op):
     if op.get("edge") is not None:
         kw["edge"] = C.EDGE_CLASSES[op["edge"]]
     if op.get("conn") is not None:
-        kw["connectivity"] = op["conn"]
+        kw["connectivity"] = decode_conn(op["conn"])
     if "ensure" in op:
         kw["ensurelink"] = op["ensure"]
+    pos = []
+    for name in ("count", "edge", "connectivity", "ensurelink")[: op.get("positional", 0)]:
+        # the documented parameter order, used positionally as far as it goes
+        if name not in kw:
+            break
+        pos.append(kw.pop(name))
+    return _call(op, pos, kw)
+
+
+def _call(op, pos, kw):
     # process-wide setting seam: the application has neighbor caching on
     seams.set_flag(bool(op.get("cache")))
     try:
@@ -114,8 +137,8 @@ def call(op):
             mode = op.get("bias")
             if mode:
                 with Biased(mode):
-                    return RG.randgraph(**kw)
-            return RG.randgraph(**kw)
+                    return RG.randgraph(*pos, **kw)
+            return RG.randgraph(*pos, **kw)
     finally:
         seams.set_flag(False)
 
@@ -228,6 +251,11 @@ class C20(engine.Property):
         op["conn"] = rng.choice(
             [None, None, None, 0, 1e-9, 0.5, 1, 1.0, round(rng.random(), 3)]
         )
+        if rng.random() < 0.08:
+            # any real number in [0, 1]
+            op["conn"] = rng.choice([{"frac": [1, 3]}, {"frac": [1, 1]}, {"frac": [0, 1]}, {"dec": "0.3"}, {"dec": "1"}, {"dec": "0.75"}])
+        if rng.random() < 0.2:
+            op["positional"] = rng.randint(1, 4)
         r = rng.random()
         if r < 0.4:
             op["ensure"] = True
